@@ -1,6 +1,7 @@
 """C13 - start-code emulation prevention is exact; NAL framing unambiguous."""
-import itertools
+import itertools, json, os
 from .. import common as C
+from .. import rpu as R
 
 ALPHA = [0x00, 0x01, 0x02, 0x03, 0x04, 0xFF]
 
@@ -37,8 +38,72 @@ def gen_cases(res):
     return cases, extra, maxlen
 
 
+_TAB = []
+for _i in range(256):
+    _c = _i << 24
+    for _ in range(8):
+        _c = ((_c << 1) ^ 0x04C11DB7) & 0xFFFFFFFF if _c & 0x80000000 else (_c << 1) & 0xFFFFFFFF
+    _TAB.append(_c)
+
+
+def crc_step(state, data):
+    for b in data:
+        state = ((state << 8) & 0xFFFFFFFF) ^ _TAB[((state >> 24) ^ b) & 0xFF]
+    return state
+
+
+def seam_rpus(res, r):
+    """valid RPUs (raw form) whose bytes put an escape site at or across the seam between the data and the CRC-32:
+    data ending in 00 00 with a CRC starting <= 3, data ending in 00 with a CRC starting 00 0x, a CRC holding
+    00 00 0x itself, plus unsteered variants. Built from generated RPUs with a CM v4.0 payload by rewriting the
+    bytes before the CRC (`remaining`) and searching two of them for the wanted CRC."""
+    from .. import rpucases as RC
+    from .. import rpugen as G
+    out = []
+    nbase = 0
+    for t, raw, m in RC.valid_trees(res.seed, 60, "c13", profile=8):
+        d = t.get("vdr_dm_data")
+        if d is None or "cmv40_metadata" not in d or t.get("remaining"):
+            continue
+        t2 = dict(t)
+        t2["remaining"] = [0] * (8 * 6)
+        body = G.encode(t2).rstrip(b"\x00")[:-5]          # 0x19 .. remaining, without CRC and 0x80
+        if C.dvh().run(["parseclass rpu " + (RC.SC4 + body + R.crc32_mpeg2(body[1:]).to_bytes(4, "big") + b"\x80").hex()])[0] != "ok":
+            continue
+        nbase += 1
+        pre = body[:-6]
+        st0 = crc_step(0xFFFFFFFF, pre[1:])
+        def finish(rem):
+            b = pre + rem
+            return b + crc_step(st0, rem).to_bytes(4, "big") + b"\x80"
+        want = {"00 00 | 0x": [], "00 | 00 0x": [], "crc 00 00 0x": [], "crc x 00 00 0x": []}
+        x0 = r.randrange(4, 256)
+        for b1 in range(256):
+            for b2 in range(1, 256):
+                for tail, key in ((b"\x00\x00", "00 00 | 0x"), (b"\x00", "00 | 00 0x"), (b"\x07", None)):
+                    rem = bytes([x0, 0x55, b1, b2]) + (tail if len(tail) == 2 else b"\x21" + tail)
+                    c = crc_step(st0, rem)
+                    c0, c1, c2, c3 = c >> 24, (c >> 16) & 255, (c >> 8) & 255, c & 255
+                    if key == "00 00 | 0x" and c0 <= 3 and len(want[key]) < 6:
+                        want[key].append(rem)
+                    elif key == "00 | 00 0x" and c0 == 0 and c1 <= 3 and len(want[key]) < 3:
+                        want[key].append(rem)
+                    elif key is None and c0 == 0 and c1 == 0 and c2 <= 3 and len(want["crc 00 00 0x"]) < 2:
+                        want["crc 00 00 0x"].append(rem)
+                    elif key is None and c1 == 0 and c2 == 0 and c3 <= 3 and len(want["crc x 00 00 0x"]) < 2:
+                        want["crc x 00 00 0x"].append(rem)
+        for key, rems in want.items():
+            for rem in rems:
+                out.append((key, finish(rem)))
+        for _ in range(20):
+            out.append(("unsteered", finish(bytes(r.choice([0, 0, 1, 2, 3, 0x42, r.randrange(256)]) for _ in range(6)))))
+        if nbase >= (3 if res.tier == "quick" else 12):
+            break
+    return out
+
+
 def run(res):
-    broken = C.prelude(res)
+    broken = C.prelude(res, need_dovi=True)
     cases, extra, maxlen = gen_cases(res)
     allc = cases + extra
     lines_e = ["escape " + C.hexs(c) for c in allc]
@@ -65,10 +130,51 @@ def run(res):
             res.violation("written NAL contains a forbidden sequence at %d: payload %s -> %s" % (f, c.hex(), eb.hex()), {"op": "escape", "input": c.hex(), "impl": e})
         if u != "ok " + C.hexs(c):
             res.violation("unescape(escape x) != x for x=%s: escape=%s unescape=%s" % (c.hex(), eb.hex(), u), {"op": "unescape.escape", "input": c.hex(), "impl_escape": e, "impl_unescape": u})
+    # ---- the call sites: RPUs written as NALs by the library (write_hevc_unspec62_nalu) and into an RPU file by a
+    # command, with escape sites at and across the seam between the data and the CRC-32
+    from .. import cli
+    from .. import rpucases as RC
+    r = C.rng(res.seed, "c13-seam")
+    seam = seam_rpus(res, r)
+    kinds = {}
+    lines_w = ["rt rpu nal " + (RC.SC4 + raw).hex() for key, raw in seam]
+    mw = C.run_sharded(C.model, lines_w)
+    iw = C.run_sharded(C.dvh, lines_w)
+    nd += C.diff_streams(res, "NAL writer", lines_w, mw, iw)
+    written_ok = []
+    for (key, raw), o in zip(seam, iw):
+        kinds[key] = kinds.get(key, 0) + 1
+        if not o.startswith("ok "):
+            res.violation("write_hevc_unspec62_nalu fails on a valid unmodified RPU (%s): %s" % (key, o), {"op": "rt rpu nal", "input": raw.hex(), "impl": o})
+            continue
+        nal = C.unhexs(o.split()[1])
+        f = forbidden(nal)
+        if f is not None:
+            res.violation("the NAL written for an RPU (%s) contains a forbidden sequence at %d: ...%s" % (key, f, nal[max(0, f - 4) : f + 6].hex()), {"op": "rt rpu nal", "input": raw.hex(), "impl": o})
+        elif R.unescape(nal[2:]) != raw or nal[2:] != R.escape(raw):
+            res.violation("the NAL written for an RPU (%s) is not the canonical escaping of its payload" % key, {"op": "rt rpu nal", "input": raw.hex(), "impl": o})
+        else:
+            written_ok.append(raw)
+    if seam:
+        w = cli.Work("c13")
+        inp = w.write("in.bin", b"".join(b"\x00\x00\x00\x01" + R.escape(raw) for key, raw in seam))
+        w.write("cfg.json", b"{}")
+        ec, txt = cli.run(["editor", "-i", inp, "-j", w.path("cfg.json"), "-o", w.path("out.bin")], w.dir)
+        rp = {"op": "editor {}", "rpus": [raw.hex() for key, raw in seam][:40]}
+        if ec != "0":
+            res.violation("editor with an empty config exits %s on a file of valid RPUs" % ec, rp)
+        else:
+            outd = w.read("out.bin") or b""
+            got = [x for x in R.read_rpu_file_raw(w.path("out.bin"))]
+            if got != [raw for key, raw in seam]:
+                res.violation("RPU file written by the editor: %d entries read back for %d written, or their bytes differ (start code emulation inside an entry)" % (len(got), len(seam)), rp)
+            elif outd != b"".join(b"\x00\x00\x00\x01" + R.escape(raw) for key, raw in seam):
+                res.violation("RPU file written by the editor is not the canonical escaping of its entries", rp)
     res.coverage.update({
-        "evaluations": len(lines_e) + len(lines_u),
+        "nal_writer_cases": len(seam), "nal_writer_kinds": kinds,
+        "evaluations": len(lines_e) + len(lines_u) + 2 * len(seam),
         "distinct_nontrivial": nontriv,
-        "rule": "all strings of length <= %d over {00,01,02,03,04,FF} behind 0x19 (exhaustive), 00 00 0x triples at every position 0..39 of 48-byte payloads, random zero-rich payloads; non-trivial = escaping changes the string (distinct inputs by construction)" % maxlen,
+        "rule": "all strings of length <= %d over {00,01,02,03,04,FF} behind 0x19 (exhaustive), 00 00 0x triples at every position 0..39 of 48-byte payloads, random zero-rich payloads; the call sites: valid RPUs steered (by a CRC search over the bytes before the CRC) to need an escape at / across the seam between data and CRC-32 or inside the CRC, written by write_hevc_unspec62_nalu (against Rpu.v and the reference escaper) and into an RPU file by `editor {}`; non-trivial = escaping changes the string (distinct inputs by construction)" % maxlen,
         "exhaustive": True,
         "exhaustive_space": "strings of length <= %d over a 6-byte alphabet: %d cases" % (maxlen, len(cases)),
         "disagreements": nd,
